@@ -2754,13 +2754,25 @@ func (s *Server) serveConnCounted(c net.Conn, countConcurrency bool) error {
 			ctx.Request.bodyStream = nil
 		}
 
-		idleConnTime.Store(ctx.time.Unix())
+		if br == nil || br.Buffered() == 0 {
+			// With a pipelined request already buffered the connection is
+			// not idle: its next request is served right away, and responses
+			// may still wait in the write buffer. Don't offer it to Shutdown
+			// for closing.
+			idleConnTime.Store(ctx.time.Unix())
+		}
 		s.setState(c, StateIdle)
 		ctx.Request.Reset()
 		ctx.Response.Reset()
 
 		if s.stop.Load() == 1 {
 			err = nil
+			if bw != nil {
+				// The response may still sit in the write buffer if another
+				// request was pipelined behind this one. That request won't be
+				// served, so nothing else would flush it.
+				err = bw.Flush()
+			}
 			break
 		}
 	}
